@@ -70,8 +70,8 @@ struct C23 : vf::Engine {
         p.setcfgr("fixed", fixed ? r.pick(std::vector<double>{0.002, 0.005, 0.01, 0.02}) : 0.0);
         p.setcfgr("maxstep", r.pick(std::vector<double>{0.01, 0.02, 0.05}));
         p.setcfgr("final", r.uni(0.8, 3.0));
-        p.setcfg("every", r.chance(0.35) ? 1 : 0);
-        p.setcfg("interp", r.chance(0.9) ? 1 : 0);
+        p.setcfg("every", r.chance(0.35) ? 1 : (r.chance(0.3) ? 2 : 0));
+        p.setcfg("interp", r.chance(0.9) ? (r.chance(0.3) ? 2 : 1) : 0);
         p.setcfgr("t0", r.chance(0.7) ? 0.0 : r.uni(-1, 2));
         // expression nodes (children precede parents)
         int nleaf = r.range(1, 3), nn = nleaf + r.range(0, 3);
@@ -185,8 +185,8 @@ struct C23 : vf::Engine {
         const double h = (fixed > 0 && ik != 8) ? fixed : (ik == 6 ? maxstep : maxstep);
         const double T = tStart + std::max(0.2, p.cfgr("final", 1.0));
         integ->setFinalTime(T);
-        if (p.cfgn("every", 0)) integ->setReturnEveryInternalStep(true);
-        if (!p.cfgn("interp", 1)) integ->setAllowInterpolation(false);
+        { long ev = p.cfgn("every", 0); if (ev == 1) integ->setReturnEveryInternalStep(true); else if (ev == 2) integ->setReturnEveryInternalStep(false); }   // 0: setter never called (default), 2: explicitly off
+        { long iv = p.cfgn("interp", 1); if (iv == 0) integ->setAllowInterpolation(false); else if (iv == 2) integ->setAllowInterpolation(true); }   // 1: setter never called (default), 2: explicitly on
         res.count(std::string("integ_") + IntegNames[ik]);
         try { integ->initialize(init); } catch (const std::exception& e) {
             // Differentiate (numerical approximation in use) over an operand that depends on no stage at or above Time:
